@@ -14,7 +14,8 @@ def run(ctx):
     seen = []
     simcheck.run_sim_property(ctx, [], lambda r, w: simmon.mon_c18(r, w, seen),
                               "the frontier offered a final / scheduled / running task it must not offer, missed a released "
-                              "task, or offered a task whose predecessors had not completed to a policy that does not plan ahead")
+                              "task, or offered a task whose predecessors had not completed to a policy that does not plan ahead",
+                              machine=False)
     ctx.cov.setdefault("input_distribution", {})["offers_matching_known_finding_F36"] = len(seen)
     for k in core.load_known():
         if k.get("status") == "known" and k.get("property") == "C18" and k.get("id") == "F36":
